@@ -130,6 +130,10 @@ class Program:
         self.types = TypeTables(os.path.join(src_root, 'src'), extra)
         self._src_cache = {}
         self.ext_consts = {}
+        for p in glob.glob(os.path.expanduser('~/.cargo/registry/src/*/input_buffer-0.5*/src/lib.rs')):
+            m = re.search(r'pub const MIN_READ: usize = (\d+);', open(p).read())
+            if m:
+                self.ext_consts['MIN_READ'] = ('usize', int(m.group(1)))
         if proto_rs:
             tymap = {'ShortShortUInt': 'u8', 'ShortUInt': 'u16', 'LongUInt': 'u32', 'LongLongUInt': 'u64', 'u8': 'u8', 'u16': 'u16', 'u32': 'u32', 'u64': 'u64'}
             for m in re.finditer(r'pub const (\w+): (\w+) = (\d+);', open(proto_rs).read()):
